@@ -127,6 +127,23 @@ pub fn c06_check(id: &str, f: &Forest, dom: &WeakDom, roots: &[Ref], dx: &WeakDo
         }
     }
     walk(f, 0, &mut src);
+    // per class: the read-back names that two DIFFERENT canonical properties, set on any instances of the class, are
+    // returned under (two canonical properties sharing one serialized name: Sound.MaxDistance / RollOffMaxDistance ...).
+    // The binary format then holds two columns that read back as one property, and an instance's own value can be
+    // replaced by the other column's default: recorded class `shared-name-siblings`.
+    let mut by_class: BTreeMap<String, BTreeMap<String, BTreeSet<String>>> = BTreeMap::new();
+    for n in &src {
+        for (k, _) in &n.props {
+            if let Some(c) = find_canonical_property_descriptor(&n.class, k, db()) {
+                let rb = find_serialized_property_descriptor(&n.class, &c.name, db())
+                    .and_then(|s| find_canonical_property_descriptor(&n.class, &s.name, db()))
+                    .map(|x| x.name.to_string())
+                    .unwrap_or_else(|| c.name.to_string());
+                by_class.entry(n.class.clone()).or_default().entry(rb).or_default().insert(c.name.to_string());
+            }
+        }
+    }
+    let shared_across = |class: &str, rb: &str| -> bool { by_class.get(class).and_then(|m| m.get(rb)).map(|s| s.len() > 1).unwrap_or(false) };
     for (i, n) in src.iter().enumerate() {
         let (ix, ib) = (dx.get_by_ref(ox[i]).unwrap(), db_.get_by_ref(ob[i]).unwrap());
         if ix.class == ib.class && lx.get(&ix.parent()) == lb.get(&ib.parent()) && ix.name != ib.name {
@@ -161,7 +178,11 @@ pub fn c06_check(id: &str, f: &Forest, dom: &WeakDom, roots: &[Ref], dx: &WeakDo
                 (Some(a), Some(b)) => {
                     let (sa, sb) = (show(a, &lx), show(b, &lb));
                     if sa != sb {
-                        out.push(format!("{id} C06 value-{:?} {}.{cn}: XML decodes to {sa}, binary to {sb}", v.ty(), n.class));
+                        if shared_across(&n.class, &cn) {
+                            out.push(format!("{id} C06 shared-name-siblings {}.{cn}: XML decodes to {sa}, binary to {sb} (instances of the class set two canonical properties that are read back under this one name)", n.class));
+                        } else {
+                            out.push(format!("{id} C06 value-{:?} {}.{cn}: XML decodes to {sa}, binary to {sb}", v.ty(), n.class));
+                        }
                     }
                 }
                 (None, Some(_)) => out.push(format!("{id} C06 missing-xml {}.{cn} ({:?}) is present after the binary round trip only", n.class, v.ty())),
